@@ -7,7 +7,7 @@ from .u9_dispatch import emit_json_struct
 from .u6_root import prelude_types
 
 NAME = 'u16_hermes_decode'
-PROPS = ['C14', 'C05', 'C02', 'C01']
+PROPS = ['C14', 'C05', 'C02', 'C01', 'C06']
 H = 'src/hermes.rs'
 T = 'src/types.rs'
 J = 'src/jsontypes.rs'
